@@ -77,18 +77,18 @@ def run(ctx):
             raise tlc.MachineryError("vacuity: no case for family %s" % k)
     codec.check_witnesses(ctx, tlc)
 
-    # binding self-test: a corrupted expectation must be noticed
+    # binding self-test: a corrupted expectation must change the judgement (judged as "the verdict changes", so that it
+    # also works when the driver under test is itself broken)
     probe = next(s for s in cases if s["ty"] == ["set", ["varint"]] and len(s["val"]) == 2 and s["val"] != s["norm"])
     bad = dict(probe)
     bad["norm"] = probe["val"]                          # "sets come back in the order written"
-    probe2 = next(s for s in cases if s["ty"][0] == "tuple" and [] in s["val"] and any(s["val"]))
+    probe2 = next(s for s in cases if s["ty"] == ["tuple", [["int"], ["text"]]] and s["val"][0] and not s["val"][1])
     bad2 = dict(probe2)
-    bad2["norm"] = [o for o in probe2["norm"] if o] + [[] for o in probe2["norm"] if not o]
-    n1, d1 = codec.judge_roundtrip(drv, bad, (4,))
-    n2, d2 = codec.judge_roundtrip(drv, bad2, (4,))
-    ok2 = bad2["norm"] == probe2["norm"] or d2
-    if not d1 or not ok2 or codec.judge_roundtrip(drv, probe, (4,))[1]:
-        raise tlc.MachineryError("binding self-test failed: corrupted expectation not detected")
+    bad2["norm"] = [probe2["norm"][1], probe2["norm"][0]]      # the null moved to the other component
+    V = codec.verdict
+    for good, corrupted in ((probe, bad), (probe2, bad2)):
+        if V(codec.judge_roundtrip(drv, good, (4,))[1]) == V(codec.judge_roundtrip(drv, corrupted, (4,))[1]):
+            raise tlc.MachineryError("binding self-test failed: corrupted expectation not detected")
     ctx.note("binding_selftest", {"corrupted_rejected": 2})
 
     for sig in sorted(groups):
@@ -106,7 +106,7 @@ def replay(ctx, obj):
     drv = codec.Driver.pure()
     st = obj["state"]
     print("case: %s" % codec.describe(st))
-    n, devs = codec.judge_roundtrip(drv, st, obj.get("versions") or codec.SAME_LAYOUT[st["pv"]])
+    n, devs = codec.judge_roundtrip(drv, st, codec.SAME_LAYOUT[st["pv"]])
     for sig, msg, detail in devs:
         print("  %s: %s %s" % (sig, msg, detail))
     if devs:
